@@ -17,6 +17,29 @@ import sys
 import numpy as np
 
 
+class Watchdog(Exception):
+    """a call into a multiprocessing.Pool of the code under test did not come back (a worker killed from outside, e.g. by the
+    OOM killer, makes Pool wait forever): the harness gives up on that call - never an observation about the code"""
+
+
+def with_watchdog(fn, seconds=180, tries=2):
+    import signal
+
+    def on_alarm(signum, frame):
+        raise Watchdog()
+    for attempt in range(tries):
+        old = signal.signal(signal.SIGALRM, on_alarm)
+        signal.alarm(seconds)
+        try:
+            return fn()
+        except Watchdog:
+            sys.stderr.write('watchdog: pool call did not return within %d s (attempt %d)\n' % (seconds, attempt + 1))
+        finally:
+            signal.alarm(0)
+            signal.signal(signal.SIGALRM, old)
+    raise RuntimeError('a multiprocessing call of the code under test hung %d times (killed worker?): machinery problem' % tries)
+
+
 def sname(s):
     return 'bulk_sample' if s == 0 else 'sample_%02d' % s
 
@@ -60,7 +83,9 @@ def bulk_dump(M, threads=None):
     old = M.threads
     try:
         M.threads = threads
-        df = M.get_bulk_frame()
+        df = with_watchdog(M.get_bulk_frame) if threads else M.get_bulk_frame()
+    except (Watchdog, RuntimeError):
+        raise
     except Exception as e:
         return {'outcome': type(e).__name__, 'rows': []}
     finally:
@@ -241,12 +266,16 @@ def run_bam(GMC, path, contigs, recs, tid, rng, tier):
             run = {'bin_size': bin_size, 'bp_per_job': bpj, 'threads': threads, 'stranded': stranded, 'dyad': dyad,
                    'min_samples': min_samples, 'min_mq': min_mq, 'outcome': 'ok', 'exc': '', 'cells': [], 'sites': []}
             try:
-                M, _ = GMC(path, **kw)
+                M, _ = with_watchdog(lambda: GMC(path, **kw)) if threads > 1 else GMC(path, **kw)
                 for sample, d in M.counts.items():
                     for loc, v in d.items():
                         run['cells'].append([sback(sample), lback(loc), int(v[0]), int(v[1])])
                 run['cells'].sort(key=lambda c: json.dumps(c))
                 run['sites'] = sorted(lback(x) for x in M.sites)
+            except RuntimeError as e:
+                if 'machinery problem' in str(e):
+                    raise
+                run['outcome'], run['exc'] = 'raised', type(e).__name__
             except Exception as e:
                 run['outcome'], run['exc'] = 'raised', type(e).__name__
             runs.append(run)
